@@ -763,3 +763,266 @@ Print Assumptions C10_vquantile_vmedian_never_panic_binary64.
 Print Assumptions C10_self_eq_binary64.
 Print Assumptions C10_ts_vargmin_vargmax_safe_binary64.
 Print Assumptions C10_ts_vargmin_vargmax_safe_option_binary64.
+
+(* ====================================================================================================================
+   AUDIT YB (notes/C10.md, matrix).  Proofs/Audit10.v.  Axiom-free.
+   ==================================================================================================================== *)
+From Tevec Require Model.Create Model.Collect.
+From Tevec Require Import Proofs.Audit07 Proofs.Audit10.
+
+(* (14) a WHOLE call of every driver, with the checks of the code in their order (Model/Kernels.v driver_call = what
+   Run/RunC10.v run_trace emits): EVERY window (0, > len), EVERY pair of lengths.  A rejected call panics BEFORE any
+   access (DPanic carries no trace); an accepted call accesses in bounds and writes every slot exactly once, in order
+   (or nothing, for the collected lazy forms).  Replaces the hypotheses `len <= len2`, `1 <= w`,
+   `bad_window w .. = false` of parts (1)-(4) by the guards themselves.                                              *)
+Theorem C10_driver_call_safe :
+  forall (cb : option nat -> nat -> list acc) (k : dkind) (w len len2 : nat),
+    cb_reads_in_window cb -> (forall st e, writes_of (cb st e) = []) -> (k = KIdxTo -> len <= len2) ->
+    match driver_call cb k w len len2 with
+    | DPanic _ => True
+    | DTrace t => Forall (acc_ok len len2) t /\ writes_of t = if dkind_writes k then seq 0 len else []
+    end.
+Proof. exact driver_call_safe. Qed.
+(* the drivers themselves (callbacks that read nothing - the compared traces): no hypothesis at all *)
+Theorem C10_driver_call_safe_unconditional :
+  forall (k : dkind) (w len len2 : nat),
+    match driver_call (fun _ _ => []) k w len len2 with
+    | DPanic _ => True
+    | DTrace t => Forall (acc_ok len len2) t /\ writes_of t = if dkind_writes k then seq 0 len else []
+    end.
+Proof. exact driver_call_safe_plain. Qed.
+(* which calls are rejected: exactly those the value model (Model/Driver.v) rejects, with the same first failing check *)
+Theorem C10_driver_call_rejects_one_series :
+  forall (T : Type) (cb : option nat -> nat -> list acc) (k : dkind) (w : nat) (xs : list T) (len2 : nat),
+    In k [KApplyTo; KIdxTo; KCustomTo; KIterBody] ->
+    ((exists p, driver_call cb k w (length xs) len2 = DPanic p) <-> bad_window w xs = true).
+Proof. exact @driver_call_guard_one. Qed.
+Theorem C10_driver_call_rejects_two_series :
+  forall (T T2 : Type) (cb : option nat -> nat -> list acc) (k : dkind) (w : nat) (xs : list T) (ys : list T2),
+    In k [KApply2To; KIdx2To] ->
+    driver_call cb k w (length xs) (length ys)
+    = match check2_to w xs ys with
+      | Some g => DPanic (guard_kind g)
+      | None => driver_call cb k w (length xs) (length ys)
+      end
+    /\ (check2_to w xs ys = None <-> exists t, driver_call cb k w (length xs) (length ys) = DTrace t).
+Proof. exact @driver_call_guard_two. Qed.
+Theorem C10_driver_call_rejects_two_series_slices :
+  forall (T T2 : Type) (cb : option nat -> nat -> list acc) (k : dkind) (w : nat) (xs : list T) (ys : list T2),
+    In k [KCustom2Lazy; KCustom2Write] ->
+    (forall g, check2_custom w xs ys = Some g -> driver_call cb k w (length xs) (length ys) = DPanic (guard_kind g)) /\
+    (check2_custom w xs ys = None -> exists t, driver_call cb k w (length xs) (length ys) = DTrace t).
+Proof. exact @driver_call_guard_custom2. Qed.
+
+(* (15) write-once statements that were missing: the two-series window-index body *)
+Theorem C10_each_slot_once_idx2 :
+  forall cb w len, (forall st e, writes_of (cb st e) = []) ->
+    bad_window w (seq 0 len) = false -> writes_of (trace_idx2_to cb w len) = seq 0 len.
+Proof. exact trace_idx2_to_writes. Qed.
+(* the lazy slice forms perform no uset themselves; written through Collect.write_trust_iter: slots 0..len-1, once, in order *)
+Theorem C10_lazy_slices_write_nothing :
+  forall w len, writes_of (trace_custom_iter w len) = [] /\ writes_of (trace_custom2 w len) = [].
+Proof. intros. split; [apply trace_custom_iter_no_write|apply trace_custom2_no_write]. Qed.
+
+(* (16) the clamp `window.min(len)` (anchored mechanism): a window larger than the series IS window = len - the same
+   trace, the same calls, the same outcome, for every two-phase body; and clamping never changes what is rejected  *)
+Theorem C10_window_clamp_traces :
+  forall (w len : nat) (cb : option nat -> nat -> list acc),
+    trace_apply_to w len = trace_apply_to (Nat.min w len) len /\
+    trace_apply2_to w len = trace_apply2_to (Nat.min w len) len /\
+    trace_idx_to cb w len = trace_idx_to cb (Nat.min w len) len /\
+    trace_idx2_to cb w len = trace_idx2_to cb (Nat.min w len) len /\
+    trace_custom_to w len = trace_custom_to (Nat.min w len) len.
+Proof. exact traces_clamp. Qed.
+Theorem C10_window_clamp_outcomes :
+  forall (T St O : Type) (w : nat) (f : St -> option T * T -> St * O) (g : St -> option nat * nat * T -> St * O)
+         (h : St -> list T -> St * O) (s0 : St) (xs : list T),
+    rolling_apply_to w f s0 xs = rolling_apply_to (Nat.min w (length xs)) f s0 xs /\
+    rolling_apply_idx_to w g s0 xs = rolling_apply_idx_to (Nat.min w (length xs)) g s0 xs /\
+    rolling_custom_to w h s0 xs = rolling_custom_to (Nat.min w (length xs)) h s0 xs /\
+    bad_window (Nat.min w (length xs)) xs = bad_window w xs.
+Proof.
+  intros. split; [apply rolling_apply_to_clamp|]. split; [apply rolling_apply_idx_to_clamp|].
+  split; [apply rolling_custom_to_clamp|apply bad_window_clamp].
+Qed.
+
+(* (17) every one-series entry point for EVERY window: a complete result of the input's length, or the panic of the
+   code's check - never `Uninit` (C10_never_uninit covered rolling_apply_to only)                                    *)
+Theorem C10_one_series_outcomes :
+  forall (T St O : Type) (w : nat) (f : St -> option T * T -> St * O) (g : St -> option nat * nat * T -> St * O)
+         (h : St -> list T -> St * O) (s0 : St) (xs : list T),
+    complete_or AssertFail (bad_window w xs) (length xs) (rolling_apply_to w f s0 xs) /\
+    complete_or AssertFail (bad_window w xs) (length xs) (rolling_apply_default w f s0 xs) /\
+    complete_or AssertFail (bad_window w xs) (length xs) (rolling_apply_idx_to w g s0 xs) /\
+    complete_or AssertFail (bad_window w xs) (length xs) (rolling_apply_idx_default w g s0 xs) /\
+    complete_or AssertFail (bad_window w xs) (length xs) (rolling_custom_to w h s0 xs) /\
+    complete_or Underflow (w =? 0) (length xs) (rolling_custom_default w h s0 xs).
+Proof.
+  intros. split; [apply apply_to_outcome|]. split; [apply apply_default_outcome|]. split; [apply apply_idx_to_outcome|].
+  split; [apply apply_idx_default_outcome|]. split; [apply custom_to_outcome|apply custom_default_outcome].
+Qed.
+
+(* (18) a caller buffer of ANY length handed to the default rolling_custom (iter.write(&mut out).unwrap()): the lazy
+   iterator is built (window - 1), then: empty buffer - nothing pulled, nothing stored; same length - slot i gets item
+   i; a one-element series - its single item is stored in EVERY slot of the buffer; otherwise Err -> a clean panic
+   before anything is pulled or stored.  Every write is below the length of the BUFFER, every slot once.            *)
+Theorem C10_custom_write_any_buffer :
+  forall w len lo : nat,
+    match custom_write_call w len lo with
+    | DPanic p => (p = Underflow /\ w = 0) \/ (p = UnwrapNone /\ 1 <= w /\ lo <> 0 /\ lo <> len /\ len <> 1)
+    | DTrace t =>
+        1 <= w /\ Forall (fun a => match a with AUset i => i < lo | a => acc_ok len len a end) t /\
+        writes_of t = seq 0 lo
+    end.
+Proof. exact custom_write_call_safe. Qed.
+Theorem C10_custom_write_is_write_trust_iter :
+  forall (O : Type) (w : nat) (items : list O) (lo : nat), 1 <= w ->
+    let r := Collect.write_trust_iter lo (Collect.exact_iter items) in
+    match custom_write_call w (length items) lo with
+    | DPanic p => p = UnwrapNone /\ fst r = Collect.WErr /\ snd r = []
+    | DTrace t => fst r = Collect.WOk /\ writes_of t = map fst (snd r)
+    end.
+Proof. exact @custom_write_call_is_write_trust_iter. Qed.
+
+(* (19) the collected (trusted-length) forms of the lazy bodies: the size_hint the raw collector trusts IS the number
+   of items the iterator yields - for every window (0 included) and every pair of lengths - so collecting writes each
+   allocated slot exactly once and exposes exactly the iterator's items                                              *)
+Theorem C10_lazy_hints_exact :
+  forall (T T2 : Type) (w : nat) (xs : list T) (ys : list T2),
+    hint_apply w (length xs) = length (args_iter w xs) /\
+    hint_apply2 w (length xs) (length ys) = length (args_iter w (combine xs ys)) /\
+    hint_idx w (length xs) = length (args_iter_idx w xs) /\
+    hint_idx2 w (length xs) (length ys) = length (args_iter_idx2 w xs ys) /\
+    (1 <= w -> hint_custom w (length xs) = length (slices_iter w (length xs)) /\
+               hint_custom2 w (length xs) = length (slices_iter w (length xs))).
+Proof.
+  intros. split; [apply hint_apply_exact|]. split; [apply hint_apply2_exact|]. split; [apply hint_idx_exact|].
+  split; [apply hint_idx2_exact|apply hint_custom_exact].
+Qed.
+Theorem C10_lazy_collected_one_series :
+  forall (T St O : Type) (w : nat) (f : St -> option T * T -> St * O) (g : St -> option nat * nat * T -> St * O)
+         (s0 : St) (xs : list T),
+    bad_window w xs = false ->
+    Create.collect_trusted (hint_apply w (length xs)) (run f s0 (args_iter w xs)) = rolling_apply_default w f s0 xs /\
+    Create.collect_trusted (hint_idx w (length xs)) (run g s0 (args_iter_idx w xs)) = rolling_apply_idx_default w g s0 xs.
+Proof. intros. split; [apply apply_lazy_collected|apply apply_idx_lazy_collected]; assumption. Qed.
+Theorem C10_lazy_collected_two_series :
+  forall (T T2 St O : Type) (w : nat) (f : St -> option (T * T2) * (T * T2) -> St * O)
+         (g : St -> option nat * nat * (T * T2) -> St * O) (s0 : St) (xs : list T) (ys : list T2),
+    bad_window w xs = false ->
+    Create.collect_trusted (hint_apply2 w (length xs) (length ys)) (run f s0 (args_iter w (combine xs ys)))
+    = rolling2_apply_default w f s0 xs ys /\
+    Create.collect_trusted (hint_idx2 w (length xs) (length ys)) (run g s0 (args_iter_idx2 w xs ys))
+    = rolling2_apply_idx_default w g s0 xs ys.
+Proof. intros. split; [apply apply2_lazy_collected|apply apply_idx2_lazy_collected]; assumption. Qed.
+Theorem C10_lazy_collected_slices :
+  forall (T T2 St O : Type) (w : nat) (f : St -> list T -> St * O) (g : St -> list T * list T2 -> St * O)
+         (s0 : St) (xs : list T) (ys : list T2),
+    1 <= w ->
+    Create.collect_trusted (hint_custom w (length xs))
+                    (run f s0 (map (fun '(st, e) => seg st e xs) (slices_iter w (length xs))))
+    = rolling_custom_default w f s0 xs /\
+    (length xs <= length ys ->
+     Create.collect_trusted (hint_custom2 w (length xs))
+                     (run g s0 (map (fun '(st, e) => (seg st e xs, seg st e ys)) (slices_iter w (length xs))))
+     = rolling2_custom_default w g s0 xs ys).
+Proof. intros. split; [apply custom_lazy_collected; assumption|intros; apply custom2_lazy_collected; assumption]. Qed.
+(* the partition kernels announce kth + 1 and yield exactly that: the trusted collector is sound on them *)
+Theorem C10_partition_collected :
+  forall (A T : Type) (NA : Num A) (DT : IsNone T A) (DX : IsNoneX T A) (kth : nat) (sort rev : bool) (xs : list T),
+    Create.collect_trusted (kth + 1) (varg_partition kth sort rev xs) = Done (varg_partition kth sort rev xs) /\
+    (forall l, vpartition kth sort rev xs = Ok l -> Create.collect_trusted (kth + 1) l = Done l).
+Proof. intros. split; [apply varg_partition_collected|apply vpartition_collected]. Qed.
+(* the EXACT panic condition of vpartition (C10_vpartition_panics_only_without_none was one direction): T::none() of
+   a non-nullable element type, evaluated because padding is needed *)
+Theorem C10_vpartition_panics_iff :
+  forall (A T : Type) (NA : Num A) (DT : IsNone T A) (DX : IsNoneX T A) (kth : nat) (sort rev : bool) (xs : list T),
+    (exists p, vpartition kth sort rev xs = Panic p) <->
+    (exists p, tnone = Panic p) /\ (if sort then length xs < kth + 1 else count_valid xs < kth + 1).
+Proof. intros. apply vpartition_panics_iff. Qed.
+
+(* (20) "before the buffer is exposed as initialised": the write lists fed to the buffer model of Model/Driver.v.
+   Writes 0..n-1 in order with any values (every two-phase body): complete, slot i = value i; vrank's permuted writes
+   on the uninitialised-buffer path: complete, each slot holds THE value stored there.                              *)
+Theorem C10_in_order_writes_expose :
+  forall (O : Type) (vs : list O),
+    finish (Collect.apply_writes (combine (seq 0 (length vs)) vs) (repeat None (length vs))) = Done vs.
+Proof. exact @in_order_writes_expose. Qed.
+Theorem C10_vrank_buffer_exposed_initialised :
+  forall (A T : Type) (NA : Num A) (DT : IsNone T A) (DX : IsNoneX T A) (O : Type) (pct rev : bool) (xs : list T)
+         (vs : list O),
+    2 <= length xs ->
+    get_is_none xs (nth 0 (isort (cmp_idx (cmp_dir rev) xs) (seq 0 (length xs))) 0) = false ->
+    length vs = length (writes_of (fst (vrank_tr pct rev xs))) ->
+    exists l, finish (Collect.apply_writes (combine (writes_of (fst (vrank_tr pct rev xs))) vs) (repeat None (length xs))) = Done l
+              /\ length l = length xs
+              /\ forall j v, In (j, v) (combine (writes_of (fst (vrank_tr pct rev xs))) vs) -> nth_error l j = Some v.
+Proof. intros. apply vrank_buffer_exposed_initialised; assumption. Qed.
+(* and what must NOT be exposed: any store sequence that misses a slot leaves the buffer `Uninit` *)
+Theorem C10_missing_slot_never_exposed :
+  forall (O : Type) (ws : list (nat * O)) (n j : nat),
+    j < n -> ~ In j (map fst ws) ->
+    finish (Collect.apply_writes ws (repeat None n)) = Uninit (Collect.apply_writes ws (repeat None n)).
+Proof. exact @missing_slot_uninit. Qed.
+
+(* ---- non-vacuity ---- *)
+Example C10_audit_example_driver_calls :
+  driver_call (fun _ _ => []) KApply2To 2 3 2 = DPanic AssertFail
+  /\ driver_call (fun _ _ => []) KApply2To 0 3 3 = DPanic AssertFail
+  /\ driver_call (fun _ _ => []) KCustom2Write 0 0 0 = DPanic Underflow
+  /\ driver_call (fun _ _ => []) KCustomWrite 2 2 0
+     = DTrace [ASlice 0 0 1; ASlice 0 0 2; AUset 0; AUset 1]
+  /\ driver_call (fun _ _ => []) KIdx2To 5 2 3 = DTrace [AUget 0 0; AUget 1 0; AUset 0; AUget 0 1; AUget 1 1; AUset 1]
+  /\ trace_apply_to 5 2 = trace_apply_to 2 2
+  /\ (let cb := fun (st : option nat) (e : nat) => if start_or_0 st <=? e then [AUget 0 e] else [] in
+      cb_reads_in_window cb /\ (forall st e, writes_of (cb st e) = []) /\ cb (Some 1) 2 = [AUget 0 2]).
+Proof.
+  repeat split; try reflexivity.
+  - intros st e a Ha. destruct (start_or_0 st <=? e) eqn:E; [|destruct Ha]. apply Nat.leb_le in E.
+    destruct Ha as [<-|[]]. unfold start_or_0 in E. destruct st; lia.
+  - intros st e. destruct (start_or_0 st <=? e); reflexivity.
+Qed.
+Example C10_audit_example_custom_write :
+  custom_write_call 2 1 3 = DTrace [ASlice 0 0 1; AUset 0; AUset 1; AUset 2]
+  /\ custom_write_call 2 3 2 = DPanic UnwrapNone /\ custom_write_call 2 3 0 = DTrace []
+  /\ custom_write_call 0 3 3 = DPanic Underflow
+  /\ Collect.write_trust_iter 3 (Collect.exact_iter [7]) = (Collect.WOk, [(0, 7); (1, 7); (2, 7)]).
+Proof. repeat split. Qed.
+Example C10_audit_example_hints :
+  hint_apply 0 3 = 3 /\ hint_apply 5 3 = 3 /\ hint_apply2 2 3 1 = 1 /\ hint_idx2 4 3 2 = 2
+  /\ length (args_iter_idx2 4 [1; 2; 3] [7; 8]) = 2 /\ bad_window 0 (@nil nat) = false
+  /\ rolling_apply_default 0 (fun (s : unit) (a : option nat * nat) => (s, snd a)) tt [] = Done []
+  /\ complete_or (O := nat) Underflow true 0 (Panicked Underflow).
+Proof. repeat split. Qed.
+Example C10_audit_example_partition :
+  (exists p, vpartition (A := Z) (T := Z) (DT := IsNone_never) (DX := IsNoneX_never) 4 false false [30; 10]%Z = Panic p)
+  /\ (exists p, @tnone Z Z IsNoneX_never = Panic p) /\ count_valid (DT := IsNone_never) [30; 10]%Z < 4 + 1
+  /\ Create.collect_trusted (1 + 1) (varg_partition (A := Z) (T := Z) (DT := IsNone_never) 1 true false [30; 10; 20]%Z) = Done [1; 2]%Z.
+Proof. split; [eexists; vm_compute; reflexivity|]. split; [eexists; reflexivity|]. split; [vm_compute; lia|vm_compute; reflexivity]. Qed.
+Example C10_audit_example_vrank_exposed :
+  let ws := writes_of (fst (vrank_tr (A := Z) (T := Z) (DT := IsNone_never) (DX := IsNoneX_never) false false [30; 10; 20]%Z)) in
+  ws = [1; 2; 0] /\ finish (Collect.apply_writes (combine ws [1; 2; 3]%Z) (repeat None 3)) = Done [3; 1; 2]%Z
+  /\ finish (Collect.apply_writes [(1, 7); (1, 8)] (repeat None 2)) = Uninit [None; Some 8].
+Proof. cbv zeta. repeat split; vm_compute; reflexivity. Qed.
+
+Print Assumptions C10_driver_call_safe.
+Print Assumptions C10_driver_call_safe_unconditional.
+Print Assumptions C10_driver_call_rejects_one_series.
+Print Assumptions C10_driver_call_rejects_two_series.
+Print Assumptions C10_driver_call_rejects_two_series_slices.
+Print Assumptions C10_each_slot_once_idx2.
+Print Assumptions C10_lazy_slices_write_nothing.
+Print Assumptions C10_window_clamp_traces.
+Print Assumptions C10_window_clamp_outcomes.
+Print Assumptions C10_one_series_outcomes.
+Print Assumptions C10_custom_write_any_buffer.
+Print Assumptions C10_custom_write_is_write_trust_iter.
+Print Assumptions C10_lazy_hints_exact.
+Print Assumptions C10_lazy_collected_one_series.
+Print Assumptions C10_lazy_collected_two_series.
+Print Assumptions C10_lazy_collected_slices.
+Print Assumptions C10_partition_collected.
+Print Assumptions C10_vpartition_panics_iff.
+Print Assumptions C10_in_order_writes_expose.
+Print Assumptions C10_vrank_buffer_exposed_initialised.
+Print Assumptions C10_missing_slot_never_exposed.
